@@ -6,7 +6,8 @@ Same committee, adversary and unforgeability as `SystemB.lean`, but one controll
                     height or for an existing height; `forceStopOthers`; the sorted 2-slot container ejects the lowest);
 * `deliver i m`   — `Controller.ProcessMsg(m)` for a message of ANY height (decided messages for past / current / future
                     heights — future ones create a decided instance and bump `Height` —, `UponExistingInstanceMsg` routes by
-                    height), subject only to `authentic` (per signed content, which includes the height);
+                    height), subject only to `authentic` (per signed content, which includes the height and the
+                    identifier; signed parts with a FOREIGN identifier are adversary-controlled, as in SystemB);
 * `timeout i h r` — `Controller.OnTimeout` with `TimeoutData{h, r}`.
 The ghost events carry the height. Light node, no runner compaction.
 -/
